@@ -2,9 +2,9 @@ package main
 
 import (
 	"encoding/json"
-	"go/ast"
 	"flag"
 	"fmt"
+	"go/ast"
 	"os"
 	"path/filepath"
 	"runtime/debug"
@@ -17,8 +17,11 @@ import (
 type ruleFn func(c *Ctx)
 
 type propDef struct {
-	ID      string
-	Rules   []struct{ Name string; Fn ruleFn }
+	ID    string
+	Rules []struct {
+		Name string
+		Fn   ruleFn
+	}
 	Clauses []string
 	NotDec  []string
 }
@@ -31,7 +34,10 @@ func regProp(id string, clauses, notdec []string) *propDef {
 	return p
 }
 func (p *propDef) rule(name string, fn ruleFn) *propDef {
-	p.Rules = append(p.Rules, struct{ Name string; Fn ruleFn }{name, fn})
+	p.Rules = append(p.Rules, struct {
+		Name string
+		Fn   ruleFn
+	}{name, fn})
 	return p
 }
 
